@@ -41,6 +41,7 @@ UNIT = [1.0, 5.0, 1.0, 0.5]           # variant 1 crosses the year end, 2 the le
 ORDERS = {"abs-first": ["abs", "abs", "speed", "speed"], "speed-first": ["speed", "abs", "abs", "speed"]}
 
 OBLIGATIONS = {
+    "repeated_fix_made_by_copy": "a repeated position whose second fix is Obs.copy() of the first (with its own timestamp)",
     "long_track": "a track of several hundred fixes (257, 258, 300, ...) cycling through the lattice",
     "repeated_timestamp_at_start": "t[0] == t[1]",
     "repeated_timestamp_at_end": "t[N-1] == t[N-2]",
@@ -73,11 +74,21 @@ def _z(i):
     return (-1.0) ** i * 1000.0 * (i + 1)
 
 
-def mk_track(variant, pts, times, flat_z=False):
+def mk_track(variant, pts, times, flat_z=False, copied=False):
+    """copied: a fix at the position of the previous one is made the way a caller duplicates a fix - Obs.copy() of the
+    previous observation with the new timestamp - instead of a fresh Obs."""
     t = Track([], "u", 1)
+    prev = None
     for i, ((px, py), u) in enumerate(zip(pts, times)):
         x, y = alpha.xy(variant, px, py)
-        t.addObs(Obs(ENUCoords(x, y, 50.0 if flat_z else _z(i)), alpha.obstime(alpha.t0(variant) + UNIT[variant] * u)))
+        ts = alpha.obstime(alpha.t0(variant) + UNIT[variant] * u)
+        if copied and prev is not None and tuple(pts[i]) == tuple(pts[i - 1]):
+            o = prev.copy()
+            o.timestamp = ts
+        else:
+            o = Obs(ENUCoords(x, y, 50.0 if flat_z else _z(i)), ts)
+        t.addObs(o)
+        prev = o
     return t
 
 
@@ -149,6 +160,10 @@ def check_track(variant, pts, times, order, ctx, case=None):
         ctx.oblige("two_fix_track")
     if any(v == 0 for v in expV):
         ctx.oblige("speed_zero_not_nan")
+    copied = order.endswith("/copied-fix")
+    if copied:
+        order = order[:-len("/copied-fix")]
+        ctx.oblige("repeated_fix_made_by_copy")
     flat_z = order.endswith("/flat-z")        # every fix at the same height (two fixes 15 um apart are then equal up to
     order_name, order = order, order.split("/")[0]     # the 0.1 mm tolerance of ENUCoords.__eq__ on all three axes)
     if flat_z:
@@ -157,7 +172,7 @@ def check_track(variant, pts, times, order, ctx, case=None):
         ctx.oblige("speed_before_abscurv")
     ctx.case(n >= 3 or rep_pos or len(set(times)) < n)
 
-    t = mk_track(variant, pts, times, flat_z)
+    t = mk_track(variant, pts, times, flat_z, copied)
     before = snap(t)
     seenS, seenV = None, None
     for step, what in enumerate(ORDERS[order]):
@@ -307,6 +322,8 @@ def run_shard(shard, ctx):
         for times in itertools.combinations_with_replacement(TIMES, n):
             for order in sorted(ORDERS):
                 check_track(v, pts, times, order, ctx)
+                if any(pts[i] == pts[i + 1] for i in range(n - 1)):
+                    check_track(v, pts, times, order + "/copied-fix", ctx)
                 if shard["extended"]:
                     check_track(v, pts, times, order + "/flat-z", ctx)
         last = pts
